@@ -437,7 +437,7 @@ pub fn run(cfg: &Cfg) -> i32 {
     }
     for need in ["insn:refused", "insn:resumed", "stack:refused", "heap:refused", "insn:sufficient"] {
         if stats.get(need) == 0 && !rep.has_unknown() {
-            machinery_error(&format!("vacuous: no case of class {}", need));
+            vacuous(&format!("vacuous: no case of class {}", need));
         }
     }
     ev.states = nruns.load(Ordering::Relaxed);
